@@ -292,6 +292,7 @@ def run(ch: Choices, opts: Dict[str, Any]) -> Dict[str, Any]:
             diff = {k: (ba[k], bb[k]) for k in ba if ba[k] != bb[k]}
             raise Violation("twin", "twin|connection-bookkeeping-differs|" + ",".join(sorted(diff)),
                             {"where": where, "diff(A,B)": diff, **sample})
+    dg = hashlib.blake2b(repr((A.qm.log, B.qm.log, A.visible(), A.bookkeeping())).encode(), digest_size=10).hexdigest()
     for sysm in (A, B):
         sysm.conn.close()
         sysm.drain(sample)
@@ -304,7 +305,6 @@ def run(ch: Choices, opts: Dict[str, Any]) -> Dict[str, Any]:
     if crosses:
         bump(probes, "value-crosses-precompile")
     h = hashlib.blake2b(repr((segments, script, nv, budget)).encode(), digest_size=10).hexdigest()
-    dg = hashlib.blake2b(repr((A.qm.log, B.qm.log, A.visible(), A.bookkeeping())).encode(), digest_size=10).hexdigest()
     nontrivial = any(s["precompile"] and s["values"] for s in segments) and crosses
     return {
         "digest": dg, "fingerprint": h, "nontrivial": bool(nontrivial), "events": sum(len(s["stmts"]) for s in segments),
